@@ -1,12 +1,13 @@
 /-
 C13 — a byte-level model of what the gate needs from `net/url.Parse` (Go 1.24): whether the
-string parses, its (lower-cased) scheme and its host, for strings of printable ASCII without `%`
-(so no percent-decoding can happen anywhere: path, fragment, userinfo and host are taken as they
-are, and the only errors left are the structural ones).  Transliterated from url.go:
+string parses, its (lower-cased) scheme and its (percent-decoded) host, for EVERY byte string:
+control characters, the structural errors, malformed percent-escapes in path / fragment /
+userinfo, the escapes and bytes a host or an IPv6 zone may contain.  Transliterated from url.go:
 `Parse` (cut `#`), `parse` (scheme, cut `?`, rootless / colon-in-first-segment rule, authority),
 `getScheme`, `parseAuthority` (last `@`, `validUserinfo`), `parseHost` (brackets, `validOptionalPort`,
-the characters `unescape(…, encodeHost)` rejects).
-Inside this domain the model replaces the harness-supplied table; outside it the table stays.
+`%25` zones), `unescape` (checking pass per mode, decoding pass), `shouldEscape` for hosts.
+The model replaces the harness-supplied table (the harness still compares the table it sends,
+and every `url` case, with net/url).
 -/
 import CaddyModel.C13.Listen
 
@@ -14,9 +15,9 @@ namespace CaddyModel.C13
 
 def isAlphaB (b : UInt8) : Bool := (65 ≤ b && b ≤ 90) || (97 ≤ b && b ≤ 122)
 
-/-- the domain of the model: printable ASCII (space included), no `%` -/
-def urlByteOK (b : UInt8) : Bool := 32 ≤ b && b ≤ 126 && b != 37
-def urlInDomain (s : Bytes) : Bool := s.all urlByteOK
+/-- the model is total: every byte string is in its domain (kept as a definition because the
+    driver and the harness name it) -/
+def urlInDomain (_ : Bytes) : Bool := true
 
 /-- `getScheme`: `none` = "missing protocol scheme"; `some none` = no scheme (rest = the whole
     string); `some (some (scheme, rest))` -/
@@ -50,16 +51,61 @@ def userinfoByteOK (b : UInt8) : Bool :=
   b = 45 || b = 46 || b = 95 || b = 58 || b = 126 || b = 33 || b = 36 || b = 38 || b = 39 ||
   b = 40 || b = 41 || b = 42 || b = 43 || b = 44 || b = 59 || b = 61 || b = 37 || b = 64
 
-/-- `parseHost` without percent-escapes; `none` = error -/
+def isHexB (b : UInt8) : Bool := isDigitB b || (97 ≤ b && b ≤ 102) || (65 ≤ b && b ≤ 70)
+def unhexB (b : UInt8) : UInt8 := if isDigitB b then b - 48 else if 97 ≤ b then b - 87 else b - 55
+
+/-- the checking pass of `unescape`: every `%` is followed by two hex digits that the mode accepts
+    (`okEsc hi lo`), every other byte is one the mode accepts unescaped (`okByte`) -/
+def escScan (okEsc : UInt8 → UInt8 → Bool) (okByte : UInt8 → Bool) : Bytes → Bool
+  | [] => true
+  | [c] => c != 37 && okByte c
+  | [c, d] => c != 37 && okByte c && d != 37 && okByte d
+  | c :: a :: b :: rest =>
+    if c = 37 then isHexB a && isHexB b && okEsc a b && escScan okEsc okByte rest
+    else okByte c && escScan okEsc okByte (a :: b :: rest)
+
+/-- the decoding pass of `unescape` (on a string that passed `escScan`) -/
+def unescapeB : Bytes → Bytes
+  | c :: a :: b :: rest =>
+    if c = 37 then (unhexB a * 16 + unhexB b) :: unescapeB rest else c :: unescapeB (a :: b :: rest)
+  | s => s
+
+/-- path, fragment and userinfo modes: any well-formed escape, any byte -/
+def escAny (s : Bytes) : Bool := escScan (fun _ _ => true) (fun _ => true) s
+
+/-- host mode: only `%25` and escapes of non-ASCII bytes; ASCII bytes must be host characters -/
+def escHost (s : Bytes) : Bool :=
+  escScan (fun a b => !(unhexB a < 8) || (a = 50 && b = 53)) (fun c => 128 ≤ c || hostByteOK c) s
+
+/-- zone mode: `%25`, `%20`, or the escape of a byte that could stand there unescaped -/
+def escZone (s : Bytes) : Bool :=
+  escScan (fun a b => (a = 50 && b = 53) || unhexB a * 16 + unhexB b = 32 || hostByteOK (unhexB a * 16 + unhexB b))
+    (fun c => 128 ≤ c || hostByteOK c) s
+
+/-- `strings.Index(s, sub)` -/
+def indexOfSub (sub : Bytes) : Bytes → Option Nat
+  | [] => if sub.isEmpty then some 0 else none
+  | c :: cs => if sub.isPrefixOf (c :: cs) then some 0 else (indexOfSub sub cs).map (· + 1)
+
+def sPct25 : Bytes := [37, 50, 53]   -- "%25"
+
+/-- `parseHost`; `none` = error -/
 def parseHost (h : Bytes) : Option Bytes :=
   if h.head? = some lbrack then
     match lastIndexOfB rbrack h with
     | none => none
-    | some i => if validOptionalPort (h.drop (i + 1)) && h.all hostByteOK then some h else none
+    | some i =>
+      if !validOptionalPort (h.drop (i + 1)) then none
+      else match indexOfSub sPct25 (h.take i) with
+        | some z =>
+          if escHost (h.take z) && escZone ((h.take i).drop z) && escHost (h.drop i) then
+            some (unescapeB (h.take z) ++ unescapeB ((h.take i).drop z) ++ unescapeB (h.drop i))
+          else none
+        | none => if escHost h then some (unescapeB h) else none
   else
     match lastIndexOfB colon h with
-    | some i => if validOptionalPort (h.drop i) && h.all hostByteOK then some h else none
-    | none => if h.all hostByteOK then some h else none
+    | some i => if validOptionalPort (h.drop i) && escHost h then some (unescapeB h) else none
+    | none => if escHost h then some (unescapeB h) else none
 
 /-- `parseAuthority` → host; `none` = error -/
 def parseAuthority (a : Bytes) : Option Bytes :=
@@ -68,7 +114,7 @@ def parseAuthority (a : Bytes) : Option Bytes :=
   | some i =>
     match parseHost (a.drop (i + 1)) with
     | none => none
-    | some h => if (a.take i).all userinfoByteOK then some h else none
+    | some h => if (a.take i).all userinfoByteOK && escAny (a.take i) then some h else none
 
 /-- the part of `s` before the first `c` (`strings.Cut`, first result) -/
 def beforeB (c : UInt8) (s : Bytes) : Bytes :=
@@ -76,26 +122,45 @@ def beforeB (c : UInt8) (s : Bytes) : Bytes :=
   | some (b, _) => b
   | none => s
 
-/-- `url.Parse(raw)` then `Scheme`, `Host` (what `getOrigin` / `allowedOrigins` keep) -/
-def urlParse (raw : Bytes) : Url :=
-  if beforeB 35 raw = [42] then ⟨true, [], []⟩                       -- "*"
-  else match getScheme (beforeB 35 raw) with
+/-- the part of `s` after the first `c`, empty when there is none (`strings.Cut`, second result) -/
+def afterB (c : UInt8) (s : Bytes) : Bytes :=
+  match cutAt c s with
+  | some (_, a) => a
+  | none => []
+
+def isCtlB (b : UInt8) : Bool := b < 32 || b = 127
+
+/-- `parse(u, false)` on the part before `#`: (ok, scheme, host) -/
+def urlParseNoFrag (u : Bytes) : Url :=
+  if u.any isCtlB then ⟨false, [], []⟩
+  else if u = [42] then ⟨true, [], []⟩                                  -- "*"
+  else match getScheme u with
   | none => ⟨false, [], []⟩
   | some none =>
     -- no scheme: rest is the whole string up to `?`
-    if (beforeB 63 (beforeB 35 raw)).head? ≠ some slash &&
-        (beforeB slash (beforeB 63 (beforeB 35 raw))).contains colon then ⟨false, [], []⟩
-    else if hasPrefix (beforeB 63 (beforeB 35 raw)) [slash, slash] &&
-        !hasPrefix (beforeB 63 (beforeB 35 raw)) [slash, slash, slash] then
-      (match parseAuthority (beforeB slash ((beforeB 63 (beforeB 35 raw)).drop 2)) with
-       | some h => ⟨true, [], h⟩
+    if (beforeB 63 u).head? ≠ some slash && (beforeB slash (beforeB 63 u)).contains colon then ⟨false, [], []⟩
+    else if hasPrefix (beforeB 63 u) [slash, slash] && !hasPrefix (beforeB 63 u) [slash, slash, slash] then
+      (match parseAuthority (beforeB slash ((beforeB 63 u).drop 2)) with
+       | some h =>
+         if escAny (((beforeB 63 u).drop 2).drop (beforeB slash ((beforeB 63 u).drop 2)).length) then ⟨true, [], h⟩
+         else ⟨false, [], []⟩
        | none => ⟨false, [], []⟩)
-    else ⟨true, [], []⟩
+    else if escAny (beforeB 63 u) then ⟨true, [], []⟩ else ⟨false, [], []⟩
   | some (some (scheme, rest)) =>
     if hasPrefix (beforeB 63 rest) [slash, slash] then
       (match parseAuthority (beforeB slash ((beforeB 63 rest).drop 2)) with
-       | some h => ⟨true, asciiLower scheme, h⟩
+       | some h =>
+         if escAny (((beforeB 63 rest).drop 2).drop (beforeB slash ((beforeB 63 rest).drop 2)).length) then
+           ⟨true, asciiLower scheme, h⟩
+         else ⟨false, [], []⟩
        | none => ⟨false, [], []⟩)
-    else ⟨true, asciiLower scheme, []⟩                                 -- opaque, or a path without authority
+    else if (beforeB 63 rest).head? = some slash then
+      (if escAny (beforeB 63 rest) then ⟨true, asciiLower scheme, []⟩ else ⟨false, [], []⟩)  -- a path, no authority
+    else ⟨true, asciiLower scheme, []⟩                                 -- opaque: no path is decoded
+
+/-- `url.Parse(raw)` then `Scheme`, `Host` (what `getOrigin` / `allowedOrigins` keep) -/
+def urlParse (raw : Bytes) : Url :=
+  if (urlParseNoFrag (beforeB 35 raw)).ok && !escAny (afterB 35 raw) then ⟨false, [], []⟩
+  else urlParseNoFrag (beforeB 35 raw)
 
 end CaddyModel.C13
